@@ -508,7 +508,14 @@ impl LazySeq {
         drop(state);
 
         if let Some(gen) = genfn {
-            let obj = gen.call0(py)?;
+            let obj = match gen.call0(py) {
+                Ok(obj) => obj,
+                Err(e) => {
+                    // Keep the generator so a later attempt re-runs it (and re-raises).
+                    *mutex.borrow_mut() = LazySeqState::Initialized(gen);
+                    return Err(e);
+                }
+            };
             let mut state = mutex.borrow_mut();
             *state = LazySeqState::Computed(obj.clone_ref(py));
             Ok(obj.clone_ref(py))
